@@ -164,6 +164,22 @@ def check_roundtrip(ctx):
                                              shape=shp, interface=iface,
                                              error=repr(e)[:200])))
                             continue
+                        if stray and fmt == "fb" and 10_001 in stray:
+                            # fb enforces the declared dtype (C18): a complex
+                            # value taken for a real attribute is stored as
+                            # something else than what was written
+                            fails.append(C.result(
+                                "round trip", False,
+                                function="save_numpy_vector_as_bytearray",
+                                witness=dict(
+                                    fmt=fmt, comp=comp, dtype=dtype, shape=shp,
+                                    interface=iface, presentation="complex128 "
+                                    "value (not safely castable), third write "
+                                    "of a shard",
+                                    problem="the fb writer accepted it; the "
+                                            "example cannot read back as "
+                                            "written")))
+                            break
                         if stray:
                             # a deliberately bad write was taken: what its
                             # shard-mates read back is C18's business
@@ -309,6 +325,45 @@ def check_roundtrip(ctx):
                                     read=[str(np.asarray(e["x"]).tolist()),
                                           str(e["s"])])))
                             break
+        # one shard far larger than any block size a codec wrapper might
+        # use (40 MiB of incompressible float32 in 10 examples)
+        big_comps = ["LZ4", "ZSTD"] if tier == "quick" else [
+            c for c in FB_COMP if c]
+        for comp in big_comps:
+            n_eval += 1
+            root = tmp / f"big_{comp}"
+            attrs = [Attribute(name="id", dtype="int64", shape=()),
+                     Attribute(name="x", dtype="float32", shape=(1024, 1024))]
+            ds = DatasetStructure(saved_data_description=attrs,
+                                  compression=comp, examples_per_shard=10,
+                                  shard_file_type="fb")
+            d = Dataset.create(root, Metadata(description="big"), ds)
+            gen = np.random.default_rng(ctx["seed"] + 77)
+            blocks = [gen.integers(0, 2 ** 32, (1024, 1024), dtype=np.uint32
+                                   ).view(np.float32) for _ in range(10)]
+            with d.filler() as f:
+                for k, bx in enumerate(blocks):
+                    f.write_example(values={"id": k, "x": bx}, split="train")
+            d = Dataset(root)
+            for iface in ["numpy"] + (["rust"] if comp in (
+                    "GZIP", "ZLIB", "LZ4") else []):
+                try:
+                    exs = _read(d, iface)
+                    ok = len(exs) == 10 and all(
+                        np.asarray(e["x"]).tobytes() ==
+                        blocks[C.ex_id(e)].tobytes() for e in exs)
+                    why = f"{len(exs)} of 10 examples read, contents " \
+                          f"{'equal' if ok else 'differ'}"
+                except Exception as e:  # noqa: BLE001
+                    ok, why = False, "unreadable: " + repr(e)[:200]
+                if not ok:
+                    fails.append(C.result(
+                        "round trip", False, function="CompressedFile.compress",
+                        witness=dict(fmt="fb", comp=comp, dtype="float32",
+                                     shape=(1024, 1024), interface=iface,
+                                     presentation="one 40 MiB shard",
+                                     problem=why)))
+            del blocks
         # a consumer that overwrites what it was handed (in-place
         # normalisation) must not change what later epochs deliver
         import itertools as _it
@@ -453,7 +508,8 @@ def check_shard_sizes(ctx):
             for na in counts:
                 for nb in (0, 1, eps + 1):
                     for mdmode in ("none", "same", "change", "tuple",
-                                   "rejected", "per-split"):
+                                   "rejected", "rejected-by-format",
+                                   "per-split"):
                         k += 1
                         n_eval += 1
                         root = tmp / f"s{k}"
@@ -490,6 +546,18 @@ def check_shard_sizes(ctx):
                                             except ValueError:
                                                 pass
                                             md = {"k": "good"}
+                                        elif mdmode == "rejected-by-format" \
+                                                and ntrain in (change_at,
+                                                               change_at + 1):
+                                            # right shape, refused by the fb
+                                            # writer itself (float64 cannot
+                                            # be cast safely to float32)
+                                            try:
+                                                f.write_example(
+                                                    values={"id": 0, "v": np.full(3, 0.1, np.float64)},
+                                                    split="train")
+                                            except ValueError:
+                                                pass
                                         ntrain += 1
                                         mds.append(md)
                                     f.write_example(values=C.example(i),
@@ -512,7 +580,8 @@ def check_shard_sizes(ctx):
                             for j in range(len(sh) - 1):
                                 same_md = sh[j][1] == sh[j + 1][1]
                                 if sizes[j] != eps and (same_md or mdmode in (
-                                        "none", "same", "tuple", "per-split")):
+                                        "none", "same", "tuple", "per-split",
+                                        "rejected-by-format")):
                                     bad = dict(eps=eps, split=sp, sizes=sizes,
                                                md=mdmode,
                                                what="non-final shard not full "
@@ -693,6 +762,28 @@ def check_custom_metadata(ctx):
                     break
             if bad:
                 break
+        # the writing handle itself (no recorded checksums), asked for a
+        # selection, written to again, asked again
+        if bad is None:
+            n_eval += 1
+            root = tmp / "live"
+            d = C.mk_dataset(root, "fb", "", eps=2, hashes=())
+            C.fill(d, range(0, 4), "train", metadata=[{"run": "A"}] * 4)
+            isrun = lambda r: (lambda s: s.custom_metadata == {"run": r})  # noqa: E731
+            first = C.iterate(d, "numpy", "train", shard_filter=isrun("A"))
+            C.fill(d, range(4, 9), "train",
+                   metadata=[{"run": "B"}] * 3 + [{"run": "A"}] * 2)
+            for r, want in (("A", [0, 1, 2, 3, 7, 8]), ("B", [4, 5, 6])):
+                try:
+                    got = C.iterate(d, "numpy", "train", shard_filter=isrun(r))
+                except Exception as e:  # noqa: BLE001
+                    got = repr(e)[:200]
+                if got != want:
+                    bad = dict(scenario="writing handle without checksums: "
+                               "select, write again, select again",
+                               value={"run": r}, selected=got, expected=want,
+                               first_selection=first)
+                    break
     return [C.result(
         "examples written under a non-empty metadata value are stored in a "
         "shard recorded with that value as of the write (object reused, "
@@ -733,7 +824,39 @@ def check_bad_writes(ctx):
         "huge-int": lambda i: dict(good(i), id=2 ** 70),
         "object-in-array": lambda i: dict(good(i), a=[[1, None], [2, 3]]),
         "float-for-int": lambda i: dict(good(i), id=2.5),
+        # foreign containers for the variable-size attribute (fb declares it
+        # uint8 there: these are then plain unsafe / wrong-shape values)
+        "int-for-bytes": lambda i: dict(good(i), b=7),
+        "npint-for-bytes": lambda i: dict(good(i), b=np.int64(5)),
+        "int-array-for-bytes": lambda i: dict(good(i), b=np.arange(3)),
+        "float-array-for-bytes": lambda i: dict(
+            good(i), b=np.array([1.5, 2.5], np.float32)),
     }
+
+    def same_value(read, written):
+        """does what was read back represent what the caller handed over?"""
+        try:
+            if isinstance(written, (bytes, bytearray, str)) or isinstance(
+                    read, (bytes, str)):
+                r = read.item() if isinstance(read, np.ndarray) and \
+                    read.shape == () else read
+                if isinstance(r, np.ndarray):
+                    r = r.tobytes()
+                r = r.encode() if isinstance(r, str) else bytes(r)
+                if not isinstance(written, (bytes, bytearray, str)):
+                    return False
+                w = written.encode() if isinstance(written, str) else \
+                    bytes(written)
+                return r == w or r == w.rstrip(b"\x00")   # npz NULs: F10
+            ra, wa = np.asarray(read), np.asarray(written)
+            if ra.dtype.kind in "SUO" or wa.dtype.kind in "SUO":
+                return ra.shape == wa.shape and bool(
+                    np.all(ra.astype(str) == wa.astype(str)))
+            return ra.size == wa.size and bool(np.array_equal(
+                ra.reshape(-1).astype(np.complex128),
+                wa.reshape(-1).astype(np.complex128), equal_nan=True))
+        except Exception:  # noqa: BLE001
+            return False
     positions = ["first-of-shard", "middle", "last-of-shard", "twice"]
     fmts = ["fb", "npz", "tfrec"]
     with C.tmpdir() as tmp:
@@ -804,6 +927,46 @@ def check_bad_writes(ctx):
                                        np.full((2, 2), C.ex_id(e)))
                         for e in got if C.ex_id(e) in goods) if nacc == ngood \
                         else True
+                    # an unusual value that was ACCEPTED has to read back
+                    # as that value (pass order = write order here); taking
+                    # it and storing something else is neither a rejection
+                    # nor a faithful write
+                    misread = None
+                    if len(got) == nacc:
+                        for k_, (t_, i_) in enumerate(accepted):
+                            if t_ != "bad":
+                                continue
+                            w_ = bmk(i_)
+                            for an, wv in w_.items():
+                                # only a mismatch of the KIND of value
+                                # (number given for a bytes / str attribute
+                                # or the reverse): numeric narrowing that a
+                                # format does not police is not covered by
+                                # C18 ("where the format enforces the dtype")
+                                declared_text = an == "b" and fmt != "fb"
+                                given_text = isinstance(
+                                    wv, (bytes, bytearray, str)) or (
+                                    isinstance(wv, np.ndarray) and
+                                    wv.dtype.kind in "SU")
+                                if declared_text == given_text:
+                                    continue
+                                if an in got[k_] and wv is not None and \
+                                        not same_value(got[k_][an], wv):
+                                    misread = dict(attribute=an,
+                                                   written=repr(wv)[:80],
+                                                   read=repr(got[k_][an])[:80])
+                                    break
+                            if misread:
+                                break
+                    if misread:
+                        fails.append(C.result(
+                            "bad write", False,
+                            function="to_tfrecord" if fmt == "tfrec" else "ShardWriterNP._write" if fmt == "npz" else "ShardWriterFlatBuffer._write",
+                            witness=dict(witness, rejected=rejected,
+                                         problem="a value of a foreign type "
+                                         "was accepted and reads back as "
+                                         "something else", **misread)))
+                        continue
                     if len(got) != nacc or rec != nacc or (
                             nacc == ngood and (ids != goods or not okvals)):
                         fails.append(C.result(
